@@ -620,6 +620,11 @@ def check_write_string(run):
         return
     lp = loops[0]
     i_lp = body.index(lp)
+    if any(x.get("k") == "Return" or (x.get("k") == "Call" and callee_name(x) == "memcpy") for s_ in body[:i_lp] for x in ir.walk(s_)):
+        # a fast path in front of the loop (early return, a first copy): the per-round analysis below starts at the loop head
+        # with nothing copied; the general copy analysis follows every path from the function entry instead
+        general_write_string(run, f, "the function copies or returns before its loop")
+        return
     AV, MP = "this.m_avail", "this.m_p"
     size_p, str_p = "p:%s" % f["params"][1]["n"], "p:%s" % f["params"][0]["n"]
 
